@@ -251,6 +251,7 @@ DEFAULT_PROFILE: Dict[str, Any] = {
     "search_type": None,  # None = nearest_shortest_queue (9 of 10) or shortest_time_to_charge
     "idle_time_out": None,
     "colocate": 0.25,
+    "detached_base_station": 0.0,  # probability that a base's station is entered at other coordinates than the base
     "starts": [0, 0, 900, 1000, 3600, 9900, 43200, 86399, 99900],  # 900 / 9900 / 99900: epoch times change their number of digits during the run
 }
 
@@ -273,14 +274,21 @@ class _Geo:
         self.rnd = rnd
         self.spread = spread
         self.pts = None
+        self.spurs: List[tuple] = []
         if net["type"] == "grid":
-            self.pts = G.node_points(G.grid(net))
+            g = G.grid(net)
+            self.pts = G.node_points(g)
+            self.spurs = G.spur_points(g)
         elif net["type"] == "denver":
             self.pts = G.node_points(G.denver())
         self.anchors: List[tuple] = []
 
     def fresh(self):
         r = self.rnd
+        if self.spurs and r.random() < 0.5:
+            # at the end of a driveway (within a metre or two): the last link of a route to it is a very short one
+            la, lo = r.choice(self.spurs)
+            return (round(la + r.uniform(-1e-5, 1e-5), 6), round(lo + r.uniform(-1e-5, 1e-5), 6))
         if self.pts:
             la, lo = r.choice(self.pts)
             return (round(la + r.uniform(-3e-4, 3e-4), 6), round(lo + r.uniform(-3e-4, 3e-4), 6))
@@ -400,7 +408,11 @@ def random_spec(seed: int, profile: Optional[Dict[str, Any]] = None) -> Dict[str
             plugs = [{"charger": rnd.choice(["LEVEL_2", "LEVEL_2", "LEVEL_1", "DCFC"]), "count": rnd.choice(P["plug_counts"]), "on_shift": False}]
             if rnd.random() < 0.3:
                 plugs.append({"charger": rnd.choice(gas), "count": 1, "on_shift": False})
-            stations.append({"id": st, "lat": p[0], "lon": p[1], "plugs": plugs})
+            sp = p
+            if P.get("detached_base_station") and rnd.random() < P["detached_base_station"]:
+                # the depot's plugs are entered under a neighbouring address (nothing ties the two rows' coordinates together)
+                sp = geo.anchor((round(p[0] + rnd.choice([-1, 1]) * rnd.uniform(3e-4, 3e-3), 6), round(p[1] + rnd.choice([-1, 1]) * rnd.uniform(3e-4, 3e-3), 6)))
+            stations.append({"id": st, "lat": sp[0], "lon": sp[1], "plugs": plugs})
         bases.append({"id": f"b{i}", "lat": p[0], "lon": p[1], "station": st, "stalls": rnd.choice(P["stalls"])})
     # --- schedules and vehicles
     nv = _pick(rnd, P["n_vehicles"])
